@@ -1040,8 +1040,6 @@ _SEM_CACHE = {}
 def _with_semantics(R, prog, shape_fn, sem_fn, what, fkey):
     """run the shape rule; when the bounded semantic comparison (folding) succeeds, a shape the rule does not recognise is an
     undecided instance, not a violation -- the code is a different spelling of a method whose meaning was just confirmed"""
-    T = Result(P, "")
-    shape_fn(T, prog)
     key = (id(prog), sem_fn.__name__)
     if key not in _SEM_CACHE:
         try:
@@ -1051,6 +1049,14 @@ def _with_semantics(R, prog, shape_fn, sem_fn, what, fkey):
         except Exception as e:
             _SEM_CACHE[key] = (None, "folding failed: %s" % type(e).__name__)
     verdict, detail = _SEM_CACHE[key]
+    T = Result(P, "")
+    try:
+        shape_fn(T, prog)
+    except AnalysisError as e:
+        # the shape rule lost its anchor: with the meaning confirmed by folding this is an unrecognised spelling, otherwise a broken analysis
+        if verdict is not True:
+            raise
+        T.unknown("LINEAR-SEMANTICS", what, str(fkey), "shape not recognised (%s); the method's meaning was confirmed by folding" % str(e)[:120])
     for o in T.obligations:
         if o["status"] == "discharged":
             R.ok(o["rule"], o["instance"], o["where"], nontrivial=o["nontrivial"])
